@@ -17,7 +17,7 @@ from gvsim.sim import Client, Raised, Sim, inject_rng, sut
 PROP = 'C14'
 TIERS = {'quick': {'runs': 4000, 'wall': 110, 'chunk': 25}, 'thorough': {'runs': 100000, 'wall': 1500, 'chunk': 50}}
 CASES_PER_RUN = 10
-REACH = ['scripted_outcomes_replayed', 'plan_len_ge_10']  # probes / faults that must fire in every batch (reach gaps are reported in the evidence)
+REACH = ['scripted_outcomes_replayed', 'plan_len_ge_10', 'shipped_configuration_searched']  # probes / faults that must fire in every batch (reach gaps are reported in the evidence)
 RULE = ('one run = 10 instances; an instance = a built-in reset function with valid parameters and a seeded or scripted '
         '(uniform / first / last / mixed) generator, wrapped in the transition chain, termination and action space of the '
         'shipped configuration of its family; a planner client plans on the reference model (random outcomes resolved '
@@ -43,9 +43,21 @@ FAMILY = {
 }
 
 
+SHIPPED_STATIC = [d + f for f in ('gv_keydoor.5x5.yaml', 'gv_keydoor.7x7.yaml', 'gv_keydoor.9x9.yaml', 'gv_crossing.5x5.yaml', 'gv_crossing.7x7.yaml',
+                                    'gv_teleport.5x5.yaml', 'gv_teleport.7x7.yaml', 'gv_empty.4x4.yaml', 'gv_empty.8x8.yaml', 'gv_four_rooms.7x7.yaml',
+                                    'gv_four_rooms.9x9.yaml', 'gv_nine_rooms.10x10.yaml', 'gv_nine_rooms.13x13.yaml')
+                  for d in ('yaml/', 'gym_gridverse/registered_envs/')]
+
+
 def generate(seed, run, tier):
     r = stream(seed, PROP, run, 'gen')
     ops = []
+    if run % 100 == 50:
+        # the shipped configurations themselves (both copies), with the environment's OWN dynamics and action list
+        k = run // 100
+        for j in range(4):
+            ops.append(['shipped', SHIPPED_STATIC[(k * 4 + j) % len(SHIPPED_STATIC)], r.randrange(2**31)])
+        return {'property': PROP, 'seed': seed, 'run': run, 'tier': tier, 'debug': r.random() < 0.5, 'ops': ops}
     for i in range(CASES_PER_RUN):
         name = R.RESETS[(run + i) % len(R.RESETS)] if r.random() < 0.7 else r.choice(R.RESETS)
         p = R.gen_params(r, name, valid_bias=1.0, hi=13)
@@ -351,10 +363,45 @@ def real_search_all_outcomes(cl, w, goals, budget=30000):
     return False
 
 
+def _shipped(runner, ctx, i, path, seed):
+    """a shipped configuration file, built by the library's own factory: reset with a seed, then search over the real
+    step function with the environment's own action list (families with deterministic dynamics)"""
+    import os
+
+    from gvsim.sim import load_yaml_data
+
+    cl = Client(0, {'kind': 'yaml', 'yaml': path, 'env_seed': seed}, runner)
+    name = load_yaml_data(path)['reset_function']['name']
+    S = sut(cl.env.functional_reset)
+    if isinstance(S, Raised):
+        ctx.count('sut_exception')
+        return
+    w = world_of(S)
+    goals = set(goal_cells(w, name))
+    ctx.state(wkey(w))
+    ctx.log('shipped', os.path.basename(path), wkey(w))
+    ctx.probe('shipped_configuration_searched')
+    inject_rng(cl.env, ScriptedRng(0, 'first'))
+    verdict = real_bfs(cl, w, goals, budget=40000)
+    if verdict is True:
+        ctx.count('won_by_real_search:shipped')
+    elif verdict is None:
+        ctx.undecided['real_search_budget'] += 1
+    else:
+        ctx.violate('winnable', 'unwinnable_initial_state', 'shipped:' + path.replace('gym_gridverse/', ''), 'no_winning_history_with_own_actions', i,
+                    f'{path} (seed {seed}): exhaustive search over the real step function with the configured actions {cl.actions} finds no winning history; agent {w["agent"][:3]}')
+
+
 def execute(record, ctx):
     runner = Sim({'clients': [], 'ops': [], 'property': PROP}, ctx, [])
     sample = None
-    for i, (_, params, mode, seed) in enumerate(record['ops']):
+    for i, op in enumerate(record['ops']):
+        if op[0] == 'shipped':
+            ctx.ticks += 1
+            ctx.count('cases')
+            _shipped(runner, ctx, i, op[1], op[2])
+            continue
+        (_, params, mode, seed) = op
         ctx.ticks += 1
         ctx.count('cases')
         name = params['name']
@@ -436,6 +483,9 @@ def execute(record, ctx):
 
 def simplify(record):
     from gvsim.props.c13 import simplify as s13
+
+    if any(op[0] == 'shipped' for op in record['ops']):
+        return  # nothing to simplify inside a shipped-file case (dropping ops is the minimiser's own business)
 
     for rec in s13({'ops': [op + [False] for op in record['ops']], **{k: v for k, v in record.items() if k != 'ops'}}):
         rec = dict(rec)
